@@ -38,7 +38,7 @@ prop('C19',
 
 
 prop('C06',
-     [RD.r06_a, RD.r06_b_reader, T.r06_b_tokens, T.r06_a_tokens, RD.r06_c, T.r19_d, RD.r06_d, RD.r06_e, RD.r06_g,
+     [RD.r06_a, RD.r06_b_reader, T.r06_b_tokens, T.r06_a_tokens, RD.r06_c, RD.r06_h, T.r19_d, RD.r06_d, RD.r06_e, RD.r06_g,
       B.r20_c],
      'Three static analyses.  (1) A context-propagating dataflow over reader.py and the composite Buffer scans: per '
      'path it tracks how many items are known to exist at the token cursor, whether the cursor is exhausted and '
@@ -82,7 +82,7 @@ prop('C08',
      'character-for-character equality of output and input; alignment of the output against the input.')
 
 prop('C01',
-     [CV.r08_a, CV.r08_b, CV.r08_d, CV.r08_e, CV.t_agree, CV.r01_a, T.r19_b, T.r19_c, T.r19_f],
+     [CV.r08_a_adjacent, CV.r08_b_wellformed, CV.r08_d, CV.r08_e, CV.t_agree, CV.r01_a, RO.r11_b, RO.r11_c, T.r19_b, T.r19_c, T.r19_f],
      'The conservation skeleton of C08 restricted to what a well-formed document reaches, plus raw capture of '
      'skipped-environment bodies and rollback completeness of the tokenizer (the spacer rule restores the cursor '
      'exactly when it emits nothing).',
@@ -116,7 +116,7 @@ prop('C12',
      'the exact body text of a region; pairing when bodies contain the same switch.')
 
 prop('C09',
-     [T.r09_a, S.r09_b, S.r09_c, S.r09_d, S.r09_e, T.r09_struct, S.r12_d],
+     [T.r09_a, S.r09_b, S.r09_c, S.r09_d, S.r09_g, S.r09_e, T.r09_struct, S.r12_d],
      'Assertions on the tokenizer dispatch table for whitespace and delimiter windows, the cursor-movement summary '
      'of the whitespace reader, conservation of the whitespace token on the break paths of the argument loops, a '
      'taint rule on the whitespace variable and def-use rules on the group reader.',
@@ -128,7 +128,7 @@ prop('C09',
 
 
 prop('C07',
-     [RO.r07_a, RO.r07_b, CV.r08_a],
+     [RO.r07_a, RO.r07_b, CV.r07_d, RO.r07_e],
      'Role inference by data flow from the public entry point (which parameters carry the tolerance option), a '
      'threading rule on every resolved call edge, must-flow along the recursion through environments, brace and '
      'bracket arguments, and a non-interference rule: every condition that mentions the option is evaluated for '
@@ -136,11 +136,11 @@ prop('C07',
      'R07.a tolerance is used only as a call argument and in conditions whose strict side raises on every path -- so '
      'wherever strict parsing succeeds tolerant parsing takes the identical path (first sentence of C07, at the level '
      'of control flow, for every input); R07.b the option is forwarded on every edge and reaches both error tests; '
-     'R07.c the tolerant continuation consumes nothing; R08.a tolerant paths conserve tokens.',
+     'R07.c the tolerant continuation consumes nothing; R07.d the paths taken only in tolerant mode conserve tokens; R07.e in strict mode no reader returns normally at the end of the input without its closer (a lost closer is reported).',
      'which inputs strict mode rejects; the shape of the repaired output.')
 
 prop('C11',
-     [RO.r11_a, RO.r11_b, RO.r11_c, RO.r11_d, CV.r01_a, CV.r08_b],
+     [RO.r11_a, RO.r11_b, RO.r11_c, RO.r11_d, CV.r01_a, CV.r08_b_skip],
      'Call-graph reachability from the raw reader, role inference and threading for the skip list, a dominance rule '
      'on the decision to read raw, def-use of the raw scan result, and the shape of the conditional scan.',
      'R11.a the raw reader reaches no parsing function; R11.b built-in and user names are one set and the decision is '
@@ -150,7 +150,7 @@ prop('C11',
      'the body-dependent preconditions of the statement (runtime).')
 
 prop('C02',
-     [RO.r02_a, RO.r02_b, S.r12_d, S.r09_e],
+     [RO.r02_a, RO.r02_b, S.r02_c, S.r12_d, S.r09_e],
      'Role inference and threading for the reading mode, must-flow of the definition mode from the command reader to '
      'the dispatcher\'s \\begin test, and def-use rules on the item reader and the group reader.',
      'R02.a the mode is forwarded on every edge and the definition mode reaches the \\begin test through brace and '
@@ -200,7 +200,7 @@ prop('C04',
      'that the root content list concatenates to the whole document (C01/C08); value-level equalities between views.')
 
 prop('C05',
-     [TR.r05_a, TR.r05_b, TR.r05_c],
+     [TR.r05_a, TR.r05_b, TR.r05_d, TR.r05_c],
      'Search-primitive classification and def-use rules on the edit methods: which primitive locates the target, '
      'which index the replacement uses, where the items of a multi-item insertion go.',
      'R05.a the target is located by identity (expressions compare equal by text, so an equality search edits an '
@@ -209,7 +209,7 @@ prop('C05',
      'the splice equation itself (the resulting text equals the original with the span substituted).')
 
 prop('C15',
-     [TR.r05_a, TR.r05_c, TR.r15_a, TR.r15_b, TR.r15_c, TR.r15_d],
+     [TR.r05_a, TR.r05_d, TR.r05_c, TR.r15_a, TR.r15_b, TR.r15_c, TR.r15_d],
      'Effect (frame) analysis of the mutators, a no-memoisation rule on the views, a kind-flow analysis of what can '
      'enter a content list through the public mutators, and totality of the text view over those kinds.',
      'R05.a/c targeted look-up by identity and ordered multi-insert; R15.a a mutator writes only its receiver\'s '
